@@ -161,4 +161,22 @@ example : verifyChain retr0 4 third = .ok () :=
   C03.C03_complete_of_locally_good retr0 rank3 stored3 stored3_good stored3_closed 4 third (Or.inr (Or.inr rfl))
     (by decide) 4 (Nat.le_refl _)
 
+/-- `Chain.trap` (the lemma behind `C03_live_accept_implies_model_accept`): its three hypotheses at once, with a non-empty
+set `T` of visited hashes — the two-entry loop of `live_differs` (cache `900 ↦ 500`, `500 ↦ 900`) -/
+example :
+    J wRetr (store wCache 900 500) [900, 500] (.toDownload 900) ∧ (ToVerify.toDownload 900).hash ∈ [900, 500] ∧
+    Fetched wRetr (.toDownload 900) := by
+  refine ⟨?_, by simp [ToVerify.hash], fun c h => by cases h⟩
+  intro k hk
+  simp only [List.mem_cons, List.not_mem_nil, or_false] at hk
+  rcases hk with rfl | rfl
+  · refine ⟨fun v hv => ?_, fun hn => ?_⟩
+    · have : v = 500 := by simpa [store] using hv.symm
+      subst this; simp
+    · simp [store] at hn
+  · refine ⟨fun v hv => ?_, fun hn => ?_⟩
+    · have : v = 900 := by simpa [store, wCache] using hv.symm
+      subst this; simp
+    · simp [store, wCache] at hn
+
 end Vacuity.C03
